@@ -50,7 +50,7 @@ LAYOUT_KEYS = ('spike_samples', 'spike_times', 'amplitudes', 'spike_templates', 
                'similar', 'n_spikes', 'n_channels', 'traces')
 
 
-def _load_dir(d, files, case):
+def _load_dir(d, files, case, again=True, write=True):
     from phylib.io.model import load_model
     d.mkdir(exist_ok=True)
     for name, f in files.items():
@@ -58,14 +58,17 @@ def _load_dir(d, files, case):
     dat = []
     for i, part in enumerate(case.get('raw') or []):
         p = d / ('raw%d.dat' % i)
-        with open(p, 'wb') as fh:
-            fh.write(b'\1' * case['offset'])
-            fh.write(np.array(part, dtype='int16').tobytes())
+        if write:
+            with open(p, 'wb') as fh:
+                fh.write(b'\1' * case['offset'])
+                fh.write(np.array(part, dtype='int16').tobytes())
         dat.append(p.name)
     for name, text in (case.get('text') or {}).items():
-        (d / name).write_text(text)
-    (d / 'params.py').write_text('dat_path = %r\nn_channels_dat = %d\ndtype = "int16"\noffset = %d\nsample_rate = %r\nhp_filtered = False\n' % (
-        dat, case['ncd'], case['offset'], case['rate']))
+        if write:
+            (d / name).write_text(text)
+    if write:
+        (d / 'params.py').write_text('dat_path = %r\nn_channels_dat = %d\ndtype = "int16"\noffset = %d\nsample_rate = %r\nhp_filtered = False\n' % (
+            dat, case['ncd'], case['offset'], case['rate']))
     before = _hash(d)
     m = load_model(d / 'params.py')
     try:
@@ -97,7 +100,23 @@ def _load_dir(d, files, case):
     after = _hash(d)
     out['changed'] = sorted(k for k in before if before[k] != after.get(k))
     out['created'] = sorted(k for k in after if k not in before)
+    # contents of the created files: the cluster copy is the template file, the created inverse is an
+    # inverse of the whitening matrix the model shows
+    if 'whitening_mat_inv.npy' in out['created']:
+        wmi_file = np.load(d / 'whitening_mat_inv.npy')
+        wm = np.asarray(_arr_of(out['wm']), dtype=float)
+        out['created_wmi_ok'] = bool(wmi_file.shape == wm.shape and np.allclose(wm @ wmi_file, np.eye(len(wm))))
+    if not again:
+        return out
+    # a second model opened on the directory the first one left behind shows the same dataset
+    out2 = _load_dir(d, {}, case, again=False, write=False)
+    out['reopen_diff'] = sorted(k for k in LAYOUT_KEYS if out.get(k) != out2.get(k)) + \
+        (['files'] if out2['changed'] or out2['created'] else [])
     return out
+
+
+def _arr_of(cells):
+    return np.array([x / 4. for x in cells['data']], dtype=float).reshape(cells['shape'])
 
 
 def impl(case):
@@ -206,6 +225,10 @@ def judge(case, impl_res, ans):
         return 'SPEC: traces present without raw data'
     if ok.get('layout_diff'):
         return 'SPEC: the same arrays under ALF names load to different %s' % ok['layout_diff']
+    if ok.get('created_wmi_ok') is False:
+        return 'SPEC: the created whitening_mat_inv.npy is not the inverse of the whitening matrix'
+    if ok.get('reopen_diff'):
+        return 'SPEC: a second model opened on the same directory differs in %s' % ok['reopen_diff']
     return None
 
 
